@@ -316,7 +316,8 @@ pub fn run_locs(tier: &str, seed: u64, out: &mut Out) {
                      "<include src=\"../a&b/c\"/><import src='x&y.wxml'/>",
                      "<wxs module=\"m\" src=\"../u&v.wxs\"/>{{ m.a }}",
                      "<c generic:g=\"p&q\" extra-attr:e=\"r&s\"><v slot:x=\"al\">{{ al }}</v></c>",
-                     "<view wx:for=\"{{ l }}\" wx:for-item=\"it\" wx:for-index=\"ix\" wx:key='a\"b'>{{ it }}{{ ix }}</view>"].iter().enumerate() {
+                     "<view wx:for=\"{{ l }}\" wx:for-item=\"it\" wx:for-index=\"ix\" wx:key='a\"b'>{{ it }}{{ ix }}</view>",
+                     "<template name=\"p&amp;q\">t</template><template is=\"p&amp;q\"/><view wx:for=\"{{ l }}\" wx:key=\"k&lt;\">{{ item }}</view>"].iter().enumerate() {
         out.raw(&analyse_source(&format!("s{}", k), "clean", src).to_string());
     }
     // fuzzed / malformed inputs: only location validity is required
